@@ -478,6 +478,7 @@ func (e *Exec) doCall(common *ssa.CallCommon, fnv Val, recv *Val, args []Val, st
 			c.oblige("panic-effect", fmt.Sprintf("callee-may-panic@call%d:%s", ord, lastSeg(ci.name)), st.pc, "false", "call to a maypanic callee in a nopanic function: "+ci.name, e.pos(pos))
 		}
 		// effects
+		csc.results = rets
 		e.applyModifies(con, csc, st)
 		// postconditions
 		psc := &Scope{e: e, c: c, cur: st.heap, old: pre, params: binder, names: map[string]Val{}, pkg: pkg, tracks: map[string]*trackInfo{}, results: rets}
@@ -494,6 +495,9 @@ func (e *Exec) doCall(common *ssa.CallCommon, fnv Val, recv *Val, args []Val, st
 			c.factUnder(st.pc, fmt.Sprintf("(= %s %s)", rets[0].T, app))
 		}
 		for _, en := range con.Ensures {
+			if mentionsTracks(en.E, con) {
+				continue // statements about the callee's own call log mean nothing to its caller
+			}
 			c.factUnder(st.pc, e.evalBool(psc, en))
 		}
 		for _, r := range rets {
@@ -562,12 +566,12 @@ func (e *Exec) havocAll(st *State) {
 }
 
 func (e *Exec) isZapPrivateComp(n string) bool {
-	if strings.HasPrefix(n, "T:") || n == "$clk" || strings.HasPrefix(n, "G:") || n == "$held" {
+	if strings.HasPrefix(n, "T:") || n == "$clk" || strings.HasPrefix(n, "G:") || n == "$held" || n == "$closed" {
 		return true
 	}
-	if strings.HasPrefix(n, "H:") || strings.HasPrefix(n, "E:") {
-		rest := n[2:]
-		for _, p := range []string{"zap.", "zapcore.", "buffer.", "zapio.", "zapgrpc.", "zaptest.", "internal_", "exp_", "observer.", "zaptest_"} {
+	if strings.HasPrefix(n, "H:") || strings.HasPrefix(n, "E:") || strings.HasPrefix(n, "C:") {
+		rest := strings.TrimLeft(n[2:], "_")
+		for _, p := range []string{"bufio.", "zap.", "zapcore.", "buffer.", "zapio.", "zapgrpc.", "zaptest.", "internal_", "exp_", "observer.", "zaptest_"} {
 			if strings.HasPrefix(rest, p) {
 				return true
 			}
@@ -625,9 +629,7 @@ func (e *Exec) applyModifies(con *Contract, csc *Scope, st *State) {
 					st.heap = c.hhavocComp(st.heap, l.comp)
 					whole = append(whole, l.comp)
 				} else {
-					cs := string(c.compSortOf(l.comp))
-					// (Array Ref X)
-					es := strings.TrimSuffix(strings.TrimPrefix(cs, "(Array Ref "), ")")
+					_, es := arraySorts(string(c.compSortOf(l.comp)))
 					fv := c.fresh("mod", Sort(es))
 					st.heap = c.hstore(st.heap, l.comp, l.ref, fv)
 				}
@@ -691,6 +693,26 @@ func (sc *Scope) resolveModifies(item string) []modLoc {
 		c.compSort["$held"] = "(Array Ref Bool)"
 		return []modLoc{{comp: "$held", ref: v.T}}
 	}
+	if i := strings.Index(item, "["); i > 0 && strings.HasSuffix(item, "]") {
+		if _, ok := c.CS.Ghosts[item[:i]]; ok {
+			sc.evalIdent(item[:i])
+			ex, err := parseExpr(item[i+1 : len(item)-1])
+			if err != nil {
+				sc.fail("modifies %s: %v", item, err)
+			}
+			v := sc.rvalue(sc.eval(ex))
+			return []modLoc{{comp: "G:" + item[:i], ref: v.T}}
+		}
+	}
+	if strings.HasPrefix(item, "closed(") && strings.HasSuffix(item, ")") {
+		ex, err := parseExpr(item[7 : len(item)-1])
+		if err != nil {
+			sc.fail("modifies %s: %v", item, err)
+		}
+		v := sc.rvalue(sc.eval(ex))
+		c.compSort["$closed"] = "(Array Ref Bool)"
+		return []modLoc{{comp: "$closed", ref: v.T}}
+	}
 	if strings.HasPrefix(item, "comp(") && strings.HasSuffix(item, ")") {
 		return []modLoc{{comp: item[5 : len(item)-1]}}
 	}
@@ -718,6 +740,10 @@ func (sc *Scope) resolveModifies(item string) []modLoc {
 		if p, ok := base.GT.Underlying().(*types.Pointer); ok {
 			stT = p.Elem()
 			ref = base.T
+			if pp, ok := stT.Underlying().(*types.Pointer); ok && isStruct(pp.Elem()) && !base.Addr {
+				ref = c.hsel(sc.cur, c.cellComp(stT), base.T)
+				stT = pp.Elem()
+			}
 		} else {
 			sc.fail("modifies %s: base is not a pointer or type", item)
 		}
@@ -802,7 +828,8 @@ func (e *Exec) callModifies(common *ssa.CallCommon, comps map[string]bool) bool 
 		case "delete":
 			comps[c.mapDomComp(common.Args[0].Type())] = true
 		case "close":
-			return true
+			c.compSort["$closed"] = "(Array Ref Bool)"
+			comps["$closed"] = true
 		}
 		return false
 	}
@@ -971,8 +998,18 @@ func (e *Exec) runDefers(st *State) {
 		before := *st
 		sub := State{pc: c.namePC(and(st.pc, d.flag)), heap: st.heap}
 		if b, ok := common.Value.(*ssa.Builtin); ok {
-			_ = b
-			e.unsupported("deferred builtin %s", b.Name())
+			if b.Name() != "close" {
+				e.unsupported("deferred builtin %s", b.Name())
+			}
+			c.compSort["$closed"] = "(Array Ref Bool)"
+			e.safety("close", &sub, and(not(fmt.Sprintf("(= %s nil)", d.args[0].T)), not(c.hsel(sub.heap, "$closed", d.args[0].T))), "close of nil or already closed channel", d.instr.Pos())
+			sub.heap = c.hstore(sub.heap, "$closed", d.args[0].T, "true")
+			if d.flag == before.pc || implies(before.pc, d.flag) {
+				st.heap = sub.heap
+			} else {
+				st.heap = c.hmerge([]string{d.flag, "true"}, []*Heap{sub.heap, before.heap})
+			}
+			continue
 		}
 		var recv *Val
 		if common.IsInvoke() {
@@ -1007,6 +1044,9 @@ func (e *Exec) execGo(x *ssa.Go, st *State) {
 		args = append(args, e.val(a))
 	}
 	sub := State{pc: st.pc, heap: st.heap}
+	// the new goroutine holds no locks
+	e.c.compSort["$held"] = "(Array Ref Bool)"
+	sub.heap = e.c.hset(sub.heap, "$held", "((as const (Array Ref Bool)) false)")
 	e.doCall(common, fnv, recv, args, &sub, x.Pos())
 	for _, ti := range e.matchTracks(common) {
 		_ = ti
@@ -1067,6 +1107,9 @@ func (e *Exec) builtin(b *ssa.Builtin, common *ssa.CallCommon, st *State, pos to
 		st.heap = c.hmerge([]string{fmt.Sprintf("(= %s nil)", args[0].T), "true"}, []*Heap{st.heap, nh})
 		return Val{}
 	case "close":
+		c.compSort["$closed"] = "(Array Ref Bool)"
+		e.safety("close", st, and(not(fmt.Sprintf("(= %s nil)", args[0].T)), not(c.hsel(st.heap, "$closed", args[0].T))), "close of nil or already closed channel", pos)
+		st.heap = c.hstore(st.heap, "$closed", args[0].T, "true")
 		return Val{}
 	case "print", "println":
 		return Val{}
@@ -1237,4 +1280,45 @@ func (e *Exec) builtinCopy(common *ssa.CallCommon, args []Val, st *State, pos to
 	}
 	_ = big.NewInt
 	return Val{T: n, S: c.intS(), GT: types.Typ[types.Int]}
+}
+
+func mentionsTracks(x Expr, con *Contract) bool {
+	if len(con.Tracks) == 0 {
+		return false
+	}
+	names := map[string]bool{}
+	for _, t := range con.Tracks {
+		names[t.Name] = true
+	}
+	var rec func(x Expr) bool
+	rec = func(x Expr) bool {
+		switch x := x.(type) {
+		case *ECount:
+			return true
+		case *EIdent:
+			return names[x.Name]
+		case *ECall:
+			for _, a := range x.Args {
+				if rec(a) {
+					return true
+				}
+			}
+		case *EUn:
+			return rec(x.X)
+		case *EBin:
+			return rec(x.X) || rec(x.Y)
+		case *ESel:
+			return rec(x.X)
+		case *EIdx:
+			return rec(x.X) || rec(x.I)
+		case *EQuant:
+			return rec(x.Body)
+		case *EIte:
+			return rec(x.C) || rec(x.A) || rec(x.B)
+		case *EAddr:
+			return rec(x.X)
+		}
+		return false
+	}
+	return rec(x)
 }
